@@ -31,6 +31,7 @@ import (
 	"go/token"
 	"os"
 	"path/filepath"
+	"regexp"
 	"sort"
 	"strings"
 )
@@ -574,6 +575,13 @@ func (c *tctx) call(x *ast.CallExpr) (string, string, string) {
 				return bin("int64", "Dec", "(dec_mul_int %s %s)")
 			case "MulInt":
 				return bin("Int", "Dec", "(dec_mul_int %s %s)")
+			case "Quo", "QuoTruncate", "QuoRoundUp":
+				f := map[string]string{"Quo": "dec_quo", "QuoTruncate": "dec_quo_trunc", "QuoRoundUp": "dec_quo_roundup"}[m]
+				v, t, p := bin("Dec", "Dec", "("+f+" %s %s)")
+				vs, _, _ := c.args(x, 1)
+				return v, t, por(p, "("+vs[0]+" =? 0)")
+			case "MulRoundUp":
+				return bin("Dec", "Dec", "(dec_mul_roundup %s %s)")
 			case "QuoInt":
 				v, t, p := bin("Int", "Dec", "(dec_quo_int %s %s)")
 				vs, _, _ := c.args(x, 1)
@@ -1543,7 +1551,36 @@ func main() {
 					params = append(params, fmt.Sprintf("(%s : %s)", a.Coq, coqType(a.Typ)))
 				}
 				var ty string
-				value, ty, panics = c.fragment(fd.Body)
+				// a sub-expression hoisted into a new local variable: inline its dominating definition and try again
+				for attempt := 0; ; attempt++ {
+					retry := ""
+					func() {
+						defer func() {
+							if r := recover(); r != nil {
+								f, ok := r.(failure)
+								if !ok || attempt >= 6 {
+									panic(r)
+								}
+								m := regexp.MustCompile(`^free identifier (\w+) `).FindStringSubmatch(f.msg)
+								if m == nil {
+									panic(r)
+								}
+								for _, l := range t.Locals {
+									if l == m[1] {
+										panic(r)
+									}
+								}
+								retry = m[1]
+							}
+						}()
+						c.env = map[string]string{}
+						value, ty, panics = c.fragment(fd.Body)
+					}()
+					if retry == "" {
+						break
+					}
+					t.Locals = append(t.Locals, retry)
+				}
 				typ = coqType(ty)
 				// an atom the fragment no longer reads stays a parameter: if its disappearance changes the meaning, the tie
 				// theorem fails (a broken obligation, not a lost one)
